@@ -98,7 +98,7 @@ def mixture(
 
     unitary_getter = getattr(val, '_unitary_', None)
     result = NotImplemented if unitary_getter is None else unitary_getter()
-    if result is not NotImplemented:
+    if result is not NotImplemented and result is not None:
         return ((1.0, result),)
 
     if default is not RaiseTypeErrorIfNotProvided:
